@@ -10,7 +10,7 @@ def run(tier):
     v.absorb(r, "c17")
     c = r.counters
     need = {"c17.period_seconds": 1843199, "c17.offset_pairs": 30000, "c17.inc15": 1921,
-            "c17.increment_cases": 256 * 7, "c17.offset_minutes": 65535}
+            "c17.increment_cases": 256 * 7, "c17.offset_minutes": 65535, "c17.date_mutation_cases": 180000}
     for k, n in need.items():
         if c.get(k, 0) < n:
             v.inconclusive_because("counter %s=%s below %s" % (k, c.get(k, 0), n))
@@ -21,7 +21,7 @@ def run(tier):
         "rule": "exhaustive: every TimePeriod second count -921599..921599 (round trip, ranges, sign, negate, adjacent order) "
                 "+ 2M seeded pairs for compareTo; every sign-consistent int8 (hour,minute) pair and every int16 minute count for "
                 "TimeOffset; increment15Minutes from each of -960..960 and its cycle; every increment helper from every byte "
-                "value (and every limit 1..255). distinct = distinct period values + distinct (h,m) round trips + distinct "
+                "value (and every limit 1..255); incrementOneDay / decrementOneDay from every date 1873-01-01..2127-12-31 (day within the real month length, calendar successor / predecessor). distinct = distinct period values + distinct (h,m) round trips + distinct "
                 "increment start values. Run under ASan+UBSan.",
         "samples": r.samples[:6] + [{"kind": "increment15Minutes", "from": 960, "to": -960},
                                     {"kind": "incrementYear from outside [0,99] (information only)",
